@@ -45,12 +45,17 @@ func runC18(c *core.Ctx) {
 	h.headerLenAgrees("C18.2b headerLen")
 	c.Clause("C18.2c the leader-originated handlers consume exactly the announced payload on every reply path (framing of pipelined requests)")
 	h.handlersDrainPayload("C18.2c payload-drained")
+	h.replyRPCDecodes("C18.2d leader-request-decoded")
 	c.Clause("C18.3 admin request bodies and task responses agree branch by branch")
 	h.adminBodies("C18.3 admin")
 	c.Clause("C18.4 registries: rpcType/taskType switches exhaustive; error kinds of the task decoder exist")
 	h.registries("C18.4 registries")
 	c.Clause("C18.5 persisted file names: %d of uint64 parsed with ParseUint(…, 10, 64)")
 	h.fileNameParsers("C18.5 filenames")
+	c.Clause("C18.6 every decoding step's error is examined before the next step and returned (truncated input yields an error, on every path of every decoder)")
+	h.errorDiscipline("C18.6 error-discipline")
+	c.Clause("C18.7 bool wire values: readBool's predicate inverts writeBool's byte for both values")
+	h.boolWire("C18.7 bool-wire")
 }
 
 func (h H) codecPairSpec(rule, encSpec, decSpec string) {
@@ -181,6 +186,28 @@ func (h H) adminBodies(rule string) {
 			return true
 		})
 		h.C.Check(rule+" task-byte", "Client."+c.method, okByte, h.fpos(fn), "the client must announce and decode with "+c.task)
+		// the reply is read: every return that reports success is preceded by
+		// decodeTaskResp(<task>, …) and the decoder's error is handed on (the
+		// errors it builds are how a client recognises not-leader / in-progress)
+		dt := h.fn("raft:decodeTaskResp")
+		calls := h.P.CallsTo(fn, dt)
+		okResp := len(calls) == 1
+		if okResp {
+			cfi := h.P.Info(fn)
+			okResp = cfi.Sym(calls[0].Common().Args[0]).String() == h.constStr("raft:"+c.task)
+			errIdx := fn.Signature.Results().Len() - 1
+			for _, r := range core.Returns(fn) {
+				v := retOperand(r, errIdx)
+				if core.Dominates(calls[0].(ssa.Instruction), r) {
+					continue
+				}
+				// a return not preceded by the decode must report an error
+				if isNilConst(v) {
+					okResp = false
+				}
+			}
+		}
+		h.C.Check(rule+" response-decoded", "Client."+c.method, okResp, h.fpos(fn), "the client must read the task's reply with decodeTaskResp("+c.task+", …) before reporting success")
 	}
 	// responses
 	et := h.fn("raft:encodeTaskResp")
@@ -219,6 +246,37 @@ func (h H) adminBodies(rule string) {
 		b, okB := find(gd, p.dec)
 		h.C.Check(rule+" response-branch", "encodeTaskResp ↔ decodeTaskResp ["+p.what+"]", okA && okB && a == b, h.fpos(et), "task response branch differs: encode=["+a+"] decode=["+b+"]")
 	}
+	// polarity: the error payload travels iff the task failed, and is parsed
+	// iff the kind string is non-empty; result payloads the other way round
+	for k, c := range h.P.CallsTo(et, h.fn("raft:writeString")) {
+		arg := h.P.Info(et).Sym(c.Common().Args[1]).String()
+		switch {
+		case strings.HasPrefix(arg, "fmt.Sprintf(\"%T\""):
+			h.gateLoose(rule+" response-polarity", fmt.Sprintf("encodeTaskResp kind-string#%d", k+1), c.(ssa.Instruction), core.MkAtom("invoke:Err($0)", "!=", "nil"))
+		case arg == `""`:
+			h.gateLoose(rule+" response-polarity", fmt.Sprintf("encodeTaskResp empty-kind#%d", k+1), c.(ssa.Instruction), core.MkAtom("invoke:Err($0)", "==", "nil"))
+		}
+	}
+	nPol := 0
+	core.Instrs(dt, func(in ssa.Instruction) {
+		c, ok := in.(*ssa.Call)
+		if !ok {
+			return
+		}
+		f := c.Common().StaticCallee()
+		if f == nil {
+			return
+		}
+		switch h.name(f) {
+		case "(*Node).decode":
+			nPol++
+			h.gateLoose(rule+" response-polarity", "decodeTaskResp error-payload", c, core.MkAtom("readString($1)#0", "!=", `""`))
+		case "(*Info).decode", "(*entry).decode":
+			nPol++
+			h.gateLoose(rule+" response-polarity", "decodeTaskResp result-payload "+h.name(f), c, core.MkAtom("readString($1)#0", "==", `""`))
+		}
+	})
+	h.C.Floor(rule+" response-polarity (decoder sites)", nPol, 3)
 	// both start with the error-kind string
 	h.C.Check(rule+" response-prefix", "encodeTaskResp ↔ decodeTaskResp [kind string]", len(gd) > 0 && gd[0].Kind == "string" && strings.HasPrefix(kinds(ge), "alt{string"), h.fpos(et), "a task response must start with the error-kind string on both sides: encode=["+kinds(ge)+"] decode=["+kinds(gd)+"]")
 }
@@ -266,6 +324,27 @@ func (h H) registries(rule string) {
 		fn := h.fn(spec)
 		got := h.switchCaseNames(fn)
 		h.C.Check(rule+" rpcType-exhaustive", h.name(fn), setEq(got, rpcs), h.fpos(fn), fmt.Sprintf("switch covers %v, declared rpc types are %v", got, rpcs))
+	}
+	// isValid answers true exactly for the declared values
+	for _, spec := range []string{"raft:(rpcType).isValid", "raft:(taskType).isValid"} {
+		fn := h.fn(spec)
+		fi := h.P.Info(fn)
+		nT, nF := 0, 0
+		for _, r := range core.Returns(fn) {
+			v := fi.Sym(r.Results[0]).String()
+			matched := fi.MustCross(r, func(a core.Atom) bool { return a.L == "$0" && a.Op == "==" }).OK
+			switch v {
+			case "true":
+				nT++
+				h.C.Check(rule+" isValid-polarity", h.name(fn)+" return true", matched, h.pos(r), "isValid answers true without matching a declared value")
+			case "false":
+				nF++
+				h.C.Check(rule+" isValid-polarity", h.name(fn)+" return false", !matched, h.pos(r), "isValid answers false for a declared value")
+			default:
+				h.C.Undecided(rule+" isValid-polarity", h.name(fn), h.pos(r), "unrecognised return "+v)
+			}
+		}
+		h.C.Check(rule+" isValid-polarity", h.name(fn)+" both-answers", nT >= 1 && nF >= 1, h.fpos(fn), "isValid must answer true for declared and false for other values")
 	}
 	fl := h.fn("raft:(rpcType).fromLeader")
 	h.C.Check(rule+" fromLeader", h.name(fl), setEq(h.switchCaseNames(fl), []string{"rpcAppendEntries", "rpcInstallSnap", "rpcTimeoutNow"}), h.fpos(fl), fmt.Sprintf("requests whose payload the raft goroutine reads itself: %v", h.switchCaseNames(fl)))
@@ -479,6 +558,42 @@ func (h H) handlersDrainPayload(rule string) {
 			h.C.Check(rule+" drain-complete", fmt.Sprintf("%s return#%d", h.name(cl), k+1), res.OK, h.pos(r), "the drain helper can return before all announced entries were read")
 		}
 	}
+	// both loops that consume the announced entries read exactly one entry per
+	// unit of numEntries: an iteration completes only after one decrement by
+	// one and one entry.decode, and there is one decode site per loop
+	dec := h.fn("raft:(*entry).decode")
+	nLoops := 0
+	for _, f := range append([]*ssa.Function{fn}, h.P.Closures(fn)...) {
+		ffi := h.P.Info(f)
+		for _, hd := range core.LoopHeaders(f) {
+			nDec := 0
+			for _, c := range h.P.CallsTo(f, dec) {
+				b := c.(ssa.Instruction).Block()
+				if b == hd || core.InLoop(hd, b) {
+					nDec++
+				}
+			}
+			if nDec == 0 {
+				continue
+			}
+			nLoops++
+			site := fmt.Sprintf("%s loop@%s", h.name(f), shortPos(h.pos(hd.Instrs[len(hd.Instrs)-1])))
+			r1 := ffi.LoopBodyMustPass(hd, func(in ssa.Instruction) bool {
+				st, ok := in.(*ssa.Store)
+				return ok && strings.HasSuffix(ffi.Sym(st.Addr).String(), "appendReq.numEntries") && strings.HasSuffix(ffi.Sym(st.Val).String(), "appendReq.numEntries - 1)")
+			})
+			r2 := ffi.LoopBodyMustPass(hd, func(in ssa.Instruction) bool { return h.P.IsCallTo(in, dec) })
+			nSt := 0
+			core.Instrs(f, func(in ssa.Instruction) {
+				if st, ok := in.(*ssa.Store); ok && strings.HasSuffix(ffi.Sym(st.Addr).String(), "appendReq.numEntries") && (in.Block() == hd || core.InLoop(hd, in.Block())) {
+					nSt++
+				}
+			})
+			h.C.Check(rule+" one-entry-per-count", site, r1.OK && r2.OK && nDec == 1 && nSt == 1, h.pos(hd.Instrs[len(hd.Instrs)-1]),
+				fmt.Sprintf("an iteration must decrement numEntries by one exactly once and decode exactly one entry (decrement on every iteration=%v, decode on every iteration=%v, decode sites=%d, numEntries stores=%d): otherwise the handler reads more or fewer entries than the request announced", r1.OK, r2.OK, nDec, nSt))
+		}
+	}
+	h.C.Floor(rule+" (entry-consuming loops)", nLoops, 2)
 	// install handler: a normal return either went through drain or follows a complete CopyN
 	in := h.fn("raft:(*Raft).onInstallSnapRequest")
 	ifi := h.P.Info(in)
